@@ -689,6 +689,10 @@ def entry_jobs(ctx):
         add('pad_edges', {'pad_length': 6, 'mode': mode}, 'shuffled')
     add('pad_edges', {'pad_length': 6, 'mode': 'extrapolate', 'extrapolate_window': 5}, 'shuffled', 'strided')
     add('padded_convolve', {'window': 7, 'sigma': 1.5}, 'shuffled')
+    # appended (round 8): closed-loop x (first == last, many distinct values)
+    add('pspline_smooth', {'lam': 10.0, 'num_knots': 8, 'spline_degree': 3, 'diff_order': 2, 'use_weights': True}, 'closed', n=41)
+    add('spline_basis', {'num_knots': 7, 'spline_degree': 3}, 'closed', n=41)
+    add('pspline_direct', {'lam': 10.0, 'num_knots': 9, 'spline_degree': 2, 'diff_order': 2, 'allow_lower': True, 'use_weights': True}, 'closed', n=41)
     return jobs
 
 
@@ -702,6 +706,9 @@ def pair_cases():
         for nf in (None, 'nan', '+inf', '-inf'):
             cases.append({'id': f'q{len(cases)}', 'n': 40, 'seed': 700 + len(cases), 'order': 'shuffled' if zw == 'many' else 'sorted',
                           'degree': 3 if zw != 'ends' else 1, 'num_knots': 8, 'allow_lower': zw != 'some', 'zero_w': zw, 'nf': nf})
+    for deg, nk in ((1, 6), (3, 8)):           # appended (round 8): closed-loop x, first == last
+        cases.append({'id': f'q{len(cases)}', 'n': 41, 'seed': 900 + len(cases), 'order': 'closed', 'degree': deg, 'num_knots': nk,
+                      'allow_lower': True})
     return cases
 
 
